@@ -64,6 +64,27 @@ func MinifyProgram(r *rand.Rand, big int) map[string]string {
 			fmt.Fprintf(&b, "type pt%d struct{ do, if_, in I }\n\nfunc (p pt%d) m() I { return p.do + p.if_ + p.in + %d }\n", i, i, i)
 		}
 	}
+	// identifiers of every length from 100 to 320 (names travel through the minifier inside
+	// length-prefixed source-map hints): functions with a literal inside, types with methods
+	b.WriteString("func useLong() I {\n\ts := I(0)\n")
+	var longDecls strings.Builder
+	for l := 100; l <= 320; l++ {
+		name := fmt.Sprintf("long%d_", l)
+		name += strings.Repeat("abcdefghij", 40)[:l-len(name)]
+		switch l % 3 {
+		case 0:
+			fmt.Fprintf(&longDecls, "func %s(a I) I {\n\treturn func(b I) I { return a + b + %d }(a)\n}\n\n", name, l)
+			fmt.Fprintf(&b, "\ts += %s(s)\n", name)
+		case 1:
+			fmt.Fprintf(&longDecls, "type T%s struct{ do I }\n\nfunc (t T%s) M%s(a I) I {\n\treturn func() I { return t.do + a + %d }()\n}\n\n", name, name, name, l)
+			fmt.Fprintf(&b, "\ts += T%s{%d}.M%s(s)\n", name, l, name)
+		default:
+			fmt.Fprintf(&longDecls, "var v%s = func(a I) I { return a ^ %d }\n\n", name, l)
+			fmt.Fprintf(&b, "\ts += v%s(s)\n", name)
+		}
+	}
+	b.WriteString("\treturn s\n}\n\n")
+	b.WriteString(longDecls.String())
 	b.WriteString("func usePkg() I {\n\ts := I(0)\n")
 	for i := 0; i < npkg; i++ {
 		switch i % 3 {
@@ -168,7 +189,8 @@ func main() {
 	if big > 0 {
 		b.WriteString("\tprintln(\"localsBig \" + itoa(int(localsBig(9))))\n")
 	}
-	b.WriteString(`	println("usePkg " + itoa(int(usePkg())))
+	b.WriteString(`	println("useLong " + itoa(int(useLong())))
+	println("usePkg " + itoa(int(usePkg())))
 	println("nest " + itoa(int(nest(1))))
 	println("ops " + ops(5, 7, 2.5, 1.25) + ops(-3, 3, -0.5, 8))
 	println("strs " + strsDigest())
@@ -181,6 +203,79 @@ func main() {
 }
 `)
 	return proglib.WithLib(map[string]string{"main.go": b.String()})
+}
+
+// jsSnippets are statements of a .inc.js file; each stores one observable value under
+// $global.vpInc[<key>]. They stress what a JavaScript minifier and the concatenation of the
+// minified chunk with the surrounding package code can get wrong.
+var jsSnippets = []string{
+	`vp.K = (function() { return "plain" + 1; })();`,
+	`vp.K = "a // not a comment";`,
+	`vp.K = "a /* not a comment */ b";`,
+	"vp.K = `template ${1 + 1}\nline two // x`;",
+	`vp.K = "x".replace(/\/\/|\/\*/g, "y") + /[/]/.source;`,
+	`vp.K = (function() {
+	return (
+		"multi" +
+		"line"
+	);
+})();`,
+	`var K_tmp = 3
+var K_tmp2 = K_tmp
+;[1, 2].forEach(function(v) { K_tmp2 += v })
+vp.K = "asi" + K_tmp2;`,
+	`vp.K = "a" + + "1" + - -2;`,
+	`/* block comment before */ vp.K = "after-block"; /* and after */`,
+	`// line comment before
+vp.K = "after-line"; // trailing comment`,
+	`/*! legal block comment */
+vp.K = "legal-block";`,
+	`vp.K = 'single \'quoted\' "double"';`,
+	`vp.K = "\u00e9\u540d";`,
+	`vp.K = String(1 / 3).length + ":" + (0.1 + 0.2 === 0.3);`,
+	`if (typeof vp.K === "undefined") { vp.K = "if" } else { vp.K = "else" }`,
+	`vp.K = (function() { label: for (var i = 0; i < 3; i++) { for (;;) { continue label } } return "label" + i })();`,
+}
+
+// jsTrailers end a .inc.js file: whatever the file ends with must not swallow or break the
+// code the compiler writes after the chunk.
+var jsTrailers = []string{
+	"", "\n", "\n\n", "// plain trailing comment", "// plain trailing comment\n", "//! legal line comment at the end", "//! legal line comment at the end\n",
+	"// @license MIT", "// @preserve this", "/*! legal block at the end */", "/* block at the end */\n", "//# sourceMappingURL=nothing.js.map", ";", ";;\n",
+	"/* unterminated-looking // */", "var vpIncLast = 1", "var vpIncLast = 1 // no semicolon, comment",
+}
+
+// IncJSProgram is a program whose package ships several .inc.js files.
+func IncJSProgram(r *rand.Rand) (map[string]string, int) {
+	files := map[string]string{}
+	var keys []string
+	nf := 1 + r.Intn(3)
+	for f := 0; f < nf; f++ {
+		var b strings.Builder
+		if r.Intn(3) == 0 {
+			b.WriteString([]string{"//! leading legal comment\n", "/*! leading legal block */\n", "// @license leading\n", "\"use strict\";\n"}[r.Intn(4)])
+		}
+		b.WriteString("var vp = $global.vpInc = $global.vpInc || {};\n")
+		for k := 0; k < 3+r.Intn(6); k++ {
+			key := fmt.Sprintf("k%d_%d", f, k)
+			keys = append(keys, key)
+			sn := jsSnippets[r.Intn(len(jsSnippets))]
+			b.WriteString(strings.ReplaceAll(sn, "K", key) + "\n")
+			if r.Intn(5) == 0 {
+				b.WriteString([]string{"//! legal comment in the middle\n", "/*! legal block in the middle */\n", "// @preserve middle\n"}[r.Intn(3)])
+			}
+		}
+		b.WriteString(jsTrailers[r.Intn(len(jsTrailers))])
+		files[fmt.Sprintf("%c_part.inc.js", 'a'+f)] = b.String()
+	}
+	var m strings.Builder
+	m.WriteString("package main\n\nimport \"github.com/gopherjs/gopherjs/js\"\n\nfunc main() {\n\tvp := js.Global.Get(\"vpInc\")\n")
+	for _, k := range keys {
+		fmt.Fprintf(&m, "\tprintln(\"J %s \" + q(vp.Get(%q).String()))\n", k, k)
+	}
+	m.WriteString("\tprintln(\"END\")\n}\n")
+	files["main.go"] = m.String()
+	return proglib.WithLib(files), len(keys)
 }
 
 // Run is the C16 check.
@@ -197,6 +292,10 @@ func Run(c *core.Ctx) int {
 			big = 18300 + i // past the 3-letter boundary (26+26²·… names)
 		}
 		jobs = append(jobs, job{&core.Program{Name: fmt.Sprintf("c16/minify-profile-%d", i), Files: MinifyProgram(c.Rand(fmt.Sprint("mp", i)), big)}, "profile"})
+	}
+	for i := 0; i < c.N(16, 300); i++ {
+		files, _ := IncJSProgram(c.Rand(fmt.Sprint("incjs", i)))
+		jobs = append(jobs, job{&core.Program{Name: fmt.Sprintf("c16/incjs-%d-%d", c.Seed, i), Files: files}, "profile"})
 	}
 	ng := c.N(28, 400)
 	for i := 0; i < ng; i++ {
